@@ -39,3 +39,7 @@ REG.bounded_check("C08.reference_resolver", ["C08"], "C08.bounded",
 REG.bounded_check("C20.reference_denotation", ["C20"], "C20.bounded",
                   covers=["ConditionEvaluator.visit_is_of_type / visit_BoolOp / visit_Compare", "EvaluateVisitor.visit_show_error / _evaluate_ret", "arg_spec._maybe_make_evaluator_sig", "signature argument positions"],
                   bound="8 evaluator bodies (if / nested if / not / and / or over is_of_type and is_provided, return, show_error) x {literal int, literal str, Union[int, str]} x {y omitted, positional, keyword}")
+REG.bounded_check("C01.instrumented_execution", ["C01"], "C01.bounded",
+                  covers=["NameCheckVisitor (assignment, branching, loops, try/except, narrowing, unpacking, indexing, calls to annotated and generic functions, match)",
+                          "stacked_scopes lookups", "implementation impl functions", "patma"],
+                  bound="14 programs x 1-4 argument tuples: every evaluated Name/Subscript/Call/BinOp/IfExp/BoolOp/Compare node's runtime value must belong to its inferred type (annotate_code)")
